@@ -20,7 +20,8 @@ Global Hint Unfold py_int_of_bool py_truth py_eq py_ne py_lt py_le py_gt py_ge f
   py_inst py_proj py_ballot py_profile py_pballot py_aprofile
   py_chain py_combinations py_enumerate py_sorted_nums py_np_median py_float py_len_pballot py_num_ballots
   py_profile_approval_score py_profile_total_score py_as_sat_profile py_satprofile_iter py_satprofile_multiplicity
-  py_satobj py_satclass py_satentry py_satprofile py_is_empty : pyprims.
+  py_satobj py_satclass py_satentry py_satprofile py_is_empty py_pay_row py_row_get py_relaxed_cost
+  py_payments py_relax : pyprims.
 
 Global Hint Unfold cardinality_p cost_p rel_card_p rel_card_norm rel_by rel_cost_p approx_norm rel_cost_approx_p
   effort_p add_card_p add_card_rel_p borda_p cc_app cc_card ind sat_add bcosts rel_cost_norm add_card_rel_norm
@@ -170,6 +171,25 @@ Qed.
 Lemma py_min_list_Qmin_list c r d : py_min_list (c :: r) d == Qmin_list c r.
 Proof. simpl. apply py_min_fold_Qmin_list. reflexivity. Qed.
 
+(* enumerate(l) is indexed by the positions 0 .. len(l)-1 *)
+Lemma enumerate_seq {A} (l : list A) (d : A) :
+  combine (map Qnat (seq 0 (length l))) l = map (fun k => (Qnat k, nth k l d)) (seq 0 (length l)).
+Proof.
+  assert (K : forall (l : list A) s, combine (map Qnat (seq s (length l))) l
+                = map (fun k => (Qnat k, nth (k - s) l d)) (seq s (length l))).
+  { induction l0 as [|x l0 IH]; intro s; simpl; [reflexivity|]. rewrite Nat.sub_diag. f_equal.
+    rewrite IH. apply map_ext_in. intros k Hk. apply in_seq in Hk.
+    replace (k - s)%nat with (S (k - S s)) by lia. reflexivity. }
+  rewrite K. apply map_ext. intro k. rewrite Nat.sub_0_r. reflexivity.
+Qed.
+Lemma nth_map_seq {B} (G : nat -> B) n k d : (k < n)%nat -> nth k (map G (seq 0 n)) d = G k.
+Proof.
+  intro H. rewrite (nth_indep _ d (G 0%nat)) by (rewrite map_length, seq_length; exact H).
+  rewrite map_nth, seq_nth by exact H. reflexivity.
+Qed.
+Lemma py_list_get_seq (G : nat -> Q) n k : In k (seq 0 n) -> py_list_get (map G (seq 0 n)) (Qnat k) = G k.
+Proof. intro H. apply in_seq in H. unfold py_list_get. rewrite py_nat_Qnat. apply nth_map_seq. lia. Qed.
+
 (* loops that collect values (yield / append) *)
 Lemma fold_collect_if {A} (c : A -> bool) (l : list A) : forall acc,
   fold_left (fun (acc : list A) x => if c x then acc ++ [x] else acc) l acc = acc ++ filter c l.
@@ -247,6 +267,23 @@ Qed.
 Lemma flat_map_py_nat {B} (f : nat -> list B) (s : list nat) :
   flat_map (fun r : Q => f (py_nat r)) (map Qnat s) = flat_map f s.
 Proof. induction s as [|x s IH]; simpl; [reflexivity|]. rewrite IH, py_nat_Qnat. reflexivity. Qed.
+
+(* a loop that only ever SETS a flag (error collectors, `found = True` without break): flag || exists *)
+Lemma fold_flag {A} (F : bool -> A -> bool) (l : list A) :
+  (forall e x, F e x = (e || F false x)%bool) -> forall e, fold_left F l e = (e || existsb (F false) l)%bool.
+Proof.
+  intro H. induction l as [|x l IH]; intro e; simpl; [rewrite orb_false_r; reflexivity|].
+  rewrite IH, (H e x). rewrite orb_assoc. reflexivity.
+Qed.
+
+Lemma fold_flag_nested {A B} (G : A -> bool -> B -> bool) (L : A -> list B) (l : list A) :
+  (forall x e y, G x e y = (e || G x false y)%bool) ->
+  forall e, fold_left (fun e x => fold_left (G x) (L x) e) l e
+            = (e || existsb (fun x => existsb (G x false) (L x)) l)%bool.
+Proof.
+  intro H. induction l as [|x l IH]; intro e; simpl; [rewrite orb_false_r; reflexivity|].
+  rewrite IH, (fold_flag (G x) (L x) (H x)). rewrite orb_assoc. reflexivity.
+Qed.
 
 (* a loop with a `found` flag / early return = existsb *)
 Lemma fold_any {A} (c : A -> bool) l : forall a,
@@ -744,6 +781,65 @@ Proof.
   unfold py_enumerate. pose proof (mc2_fold_count cost B (isort (fun x y => Qleb (cost x) (cost y)) l) 0 0) as H.
   cbn [plus] in H. rewrite H. unfold max_card. rewrite isort_map_key. reflexivity.
 Qed.
+
+(* ---------- descent into quantifiers: compare the bodies for an element of the list ---------- *)
+Lemma negb_existsb_forallb_in {A} (f g : A -> bool) (l : list A) :
+  (forall x, In x l -> negb (f x) = g x) -> negb (existsb f l) = forallb g l.
+Proof.
+  intro H. induction l as [|x l IH]; simpl; [reflexivity|].
+  rewrite negb_orb, (H x (or_introl eq_refl)), IH; [reflexivity|]. intros y Hy. apply H. right. exact Hy.
+Qed.
+Lemma existsb_ext_in {A} (f g : A -> bool) (l : list A) :
+  (forall x, In x l -> f x = g x) -> existsb f l = existsb g l.
+Proof.
+  intro H. induction l as [|x l IH]; simpl; [reflexivity|].
+  rewrite (H x (or_introl eq_refl)), IH; [reflexivity|]. intros y Hy. apply H. right. exact Hy.
+Qed.
+Lemma forallb_ext_in {A} (f g : A -> bool) (l : list A) :
+  (forall x, In x l -> f x = g x) -> forallb f l = forallb g l.
+Proof.
+  intro H. induction l as [|x l IH]; simpl; [reflexivity|].
+  rewrite (H x (or_introl eq_refl)), IH; [reflexivity|]. intros y Hy. apply H. right. exact Hy.
+Qed.
+Lemma negb_forallb_existsb_in {A} (f g : A -> bool) (l : list A) :
+  (forall x, In x l -> negb (f x) = g x) -> negb (forallb f l) = existsb g l.
+Proof.
+  intro H. induction l as [|x l IH]; simpl; [reflexivity|].
+  rewrite negb_andb, (H x (or_introl eq_refl)), IH; [reflexivity|]. intros y Hy. apply H. right. exact Hy.
+Qed.
+
+(* round(x, p) respects == *)
+Global Instance round_half_even_proper : Proper (Qeq ==> eq) Priceability.round_half_even.
+Proof.
+  intros x y H. unfold Priceability.round_half_even. rewrite (Qfloor_comp _ _ H).
+  assert (E : 2 * (x - inject_Z (Qfloor y)) == 2 * (y - inject_Z (Qfloor y))) by (rewrite H; reflexivity).
+  rewrite (Qcompare_comp _ _ E 1 1 (Qeq_refl 1)). reflexivity.
+Qed.
+Global Instance py_round_proper : Proper (Qeq ==> eq ==> Qeq) py_round.
+Proof.
+  intros x y H p p' <-. unfold py_round. cbv zeta. rewrite !Qred_correct.
+  assert (E : x * inject_Z (10 ^ Qfloor p) == y * inject_Z (10 ^ Qfloor p)) by (rewrite H; reflexivity).
+  rewrite (round_half_even_proper _ _ E). reflexivity.
+Qed.
+
+(* side condition of [fold_flag], also for nested flag loops *)
+Ltac py_flag_side :=
+  intros;
+  repeat match goal with p : (_ * _)%type |- _ => destruct p end;
+  cbv beta iota zeta;
+  repeat (rewrite fold_flag by py_flag_side);
+  repeat match goal with
+  | |- context [if ?c then _ else _] => destruct c
+  | |- context [let '(_, _) := ?p in _] => destruct p
+  end;
+  cbn [orb andb negb];
+  repeat match goal with
+  | b : bool |- _ => destruct b
+  end;
+  cbn [orb andb negb]; try reflexivity;
+  repeat match goal with |- context [existsb ?f ?l] => destruct (existsb f l) end; reflexivity.
+
+Ltac py_flags := repeat first [ rewrite fold_flag_nested by py_flag_side | rewrite fold_flag by py_flag_side ]; cbn [orb].
 
 (* "no ZeroDivisionError": a boolean that must be true on every path *)
 Ltac py_safe_atoms :=
